@@ -456,7 +456,16 @@ func c06Policy(c *Ctx) {
 				continue
 			}
 			c.Evals++
-			r, _ := canReachSuccess(ee[0].to, &ee[0], successExits(f, spec), fieldValueCut(f, "ClientAuth", k))
+			var r bool
+			assumeFieldValue("ClientAuth", k, func() {
+				cutE := fieldValueCut(f, "ClientAuth", k)
+				for _, sblk := range ee[0].from.Succs {
+					if sblk != ee[0].to {
+						cutE[edge{ee[0].from, sblk}] = true
+					}
+				}
+				r, _ = canReachSuccess(f.Blocks[0], nil, successExits(f, spec), cutE)
+			})
 			c.Check(r, rule, fname(f), "a client without certificate can complete under "+pol, "", "with ClientAuth == "+pol+" every path after an empty Certificate message aborts: a configuration the policy allows never completes", f.Pos())
 		}
 	}
